@@ -32,6 +32,10 @@ type warmCase struct {
 	// Throttle: the warm-up calculator drives a throttling checker (no queueing) instead of the reject checker: the
 	// envelope is the same, observed through the paced admissions
 	Throttle bool   `json:"throttling_checker,omitempty"`
+	// Over: the rule replaces, at the same instant and before any traffic, a rule that differs only in the cold factor
+	// (OverCold): the envelope of the rule loaded LAST must hold
+	Over     bool   `json:"loaded_over_other_cold_factor,omitempty"`
+	OverCold uint32 `json:"other_cold_factor,omitempty"`
 	Note     string `json:"note,omitempty"`
 }
 
@@ -72,6 +76,14 @@ func runWarm(idx int, c *warmCase) {
 	cbh := flow.Reject
 	if c.Throttle {
 		cbh = flow.Throttling
+	}
+	if c.Over {
+		if _, err := flow.LoadRulesOfResource(res, []*flow.Rule{{ID: res, Resource: res, TokenCalculateStrategy: flow.WarmUp, ControlBehavior: cbh,
+			Threshold: c.T, WarmUpPeriodSec: c.Period, WarmUpColdFactor: c.OverCold}}); err != nil {
+			run.Violation("C11/warmup:load-error", err.Error(), c)
+			return
+		}
+		run.Count("warmup_rules_loaded_over_another_cold_factor", 1)
 	}
 	if _, err := flow.LoadRulesOfResource(res, []*flow.Rule{{ID: res, Resource: res, TokenCalculateStrategy: flow.WarmUp, ControlBehavior: cbh,
 		Threshold: c.T, WarmUpPeriodSec: c.Period, WarmUpColdFactor: c.Cold}}); err != nil {
@@ -675,6 +687,11 @@ func main() {
 			c.Throttle = true
 			if c.T > 10 {
 				c.T = 10 // (the demand arrives in 10-20 ms ticks: a paced rate above 50/s could not be observed)
+			}
+		}
+		if rng.Intn(4) == 0 {
+			if oc := vk.PickU32(rng, 2, 3, 4, 5, 10, 0); oc != c.Cold {
+				c.Over, c.OverCold = true, oc
 			}
 		}
 		run.Begin(i, c)
